@@ -81,6 +81,14 @@ func VerifDir() string {
 	return "/verif"
 }
 
+// OutDir is where evidence and replay files go (VERIF_OUT_DIR lets self-tests against seeded changes write elsewhere).
+func OutDir() string {
+	if d := os.Getenv("VERIF_OUT_DIR"); d != "" {
+		return d
+	}
+	return VerifDir()
+}
+
 func Workers() int {
 	if s := os.Getenv("VERIF_WORKERS"); s != "" {
 		if n, err := strconv.Atoi(s); err == nil && n > 0 {
@@ -367,7 +375,7 @@ type replayFile struct {
 
 func (c *Ctx) finish() int {
 	wall := time.Since(c.Start).Seconds()
-	dir := VerifDir()
+	dir := OutDir()
 	_ = os.MkdirAll(filepath.Join(dir, "replays"), 0o755)
 	_ = os.MkdirAll(filepath.Join(dir, "evidence"), 0o755)
 
